@@ -193,7 +193,7 @@ def run(ctx):
                             if l in bufs:
                                 derives = True
                             stack.extend(fl.deps[l])
-                    if derives and not panics.discharge(s):
+                    if derives and not panics.discharge(s, ctx.db):
                         bad.append(s)
         run.instance(R4, {"fn": pp.short(fid), "file": what, "obligation": "no panic site consumes a value derived from the read buffer", "reads": len(reads), "bad": [x.site() for x in bad]}, held=held and not bad)
         if not reads:
@@ -213,7 +213,7 @@ def run(ctx):
             fns.append(f)
             fns += [db.fns[k] for k in db.closures_of(n_)]
     used = {}
-    for s in sorted(panics.all_sites(fns), key=lambda s: (s.fn.id, s.sp)):
+    for s in sorted(panics.all_sites(fns, ctx.db), key=lambda s: (s.fn.id, s.sp)):
         what = "%s %s" % (s.kind, s.detail)
         item = {"fn": pp.short(s.fn.id), "site": s.site(), "what": what}
         if s.discharged:
